@@ -72,5 +72,7 @@ Step ==
            ELSE IF last THEN Verdict("OK", i, {}, [n |-> i]) /\ out' = "done" ELSE out' = "run"
         /\ pending' = e.pending /\ fifo' = e.fifo /\ connected' = e.connected /\ issued' = e.issued /\ firedSet' = nf
   /\ i' = i + 1 /\ UNCHANGED tr
-Spec == Init /\ [][Step]_vars
+Empty == /\ out = "run" /\ Len(T.ev) = 0 /\ Verdict("OK", 0, {}, [n |-> 0]) /\ out' = "done"
+         /\ UNCHANGED <<tr, i, pending, fifo, connected, firedSet, issued>>
+Spec == Init /\ [][Step \/ Empty]_vars
 =============================================================================
